@@ -772,18 +772,21 @@ def K7(F, rep, R, ws):
                         notified.add(p[-1])
             # a method is on a side only if it changes transfer state, i.e. a predicate field that the waiting
             # (transferring) methods themselves write; pure configuration setters (capacity) and abort are on no side
+            sides = set()
             if len(notified) == 1 and (fn['simple'] in waiting_methods or writes_fields(fn, transfer_fields)):
-                side_of[(fn['name'])] = next(iter(notified))
-            elif not notified:
-                # releasing / appending storage is a consumer / producer action even if nobody is notified (dropOldData)
-                pops = any(n.get('k') == 'Call' and n.get('fn') in ('pop', 'pop_front', 'pop_back', 'erase') and
-                           (member_path(n.get('obj')) or (None,))[-1] in g for n in walk(fn['body'], into_lambda=False))
-                pushes = any(n.get('k') == 'Call' and n.get('fn') in ('push', 'push_back', 'emplace_back') and
-                             (member_path(n.get('obj')) or (None,))[-1] in g for n in walk(fn['body'], into_lambda=False))
-                if pops and not pushes and consumer_cv:
-                    side_of[fn['name']] = consumer_cv
-                elif pushes and not pops and producer_cv:
-                    side_of[fn['name']] = producer_cv
+                sides.add(next(iter(notified)))
+            # releasing / appending storage is a consumer / producer action whoever is notified (dropOldData notifies nobody;
+            # a producer method that also releases containers acts on both sides)
+            pops = any(n.get('k') == 'Call' and n.get('fn') in ('pop', 'pop_front', 'pop_back', 'erase') and
+                       (member_path(n.get('obj')) or (None,))[-1] in g for n in walk(fn['body'], into_lambda=False))
+            pushes = any(n.get('k') == 'Call' and n.get('fn') in ('push', 'push_back', 'emplace_back') and
+                         (member_path(n.get('obj')) or (None,))[-1] in g for n in walk(fn['body'], into_lambda=False))
+            if pops and consumer_cv:
+                sides.add(consumer_cv)
+            if pushes and producer_cv:
+                sides.add(producer_cv)
+            if sides:
+                side_of[(fn['name'], fn['sig'])] = sides
         for st, c in R.stages.items():
             if c != cls:
                 continue
@@ -796,11 +799,11 @@ def K7(F, rep, R, ws):
                             continue
                         if not (call['mode'] == mode or call['mode'] == 'any'):
                             continue
-                        if side_of.get(call['callee']) == cv:
+                        if cv in side_of.get((call['callee'], call['sig']), ()):
                             roles.setdefault(call['role'], set()).add(call['method'])
                     ok = len(roles) <= 1
                     rep.ob('K7', '%s|%s|%s' % (st, mode, cv), ok, None,
-                           '%s in %s mode: methods notifying %s (%s) are called concurrently by %s' %
+                           '%s in %s mode: methods acting on the %s side (%s) are called concurrently by %s' %
                            (st, mode, cv, ', '.join(sorted({m for v in roles.values() for m in v})) or 'none',
                             ('exactly one role: ' + ', '.join(roles)) if ok and roles else ('no role' if not roles else
                              'MORE THAN ONE role: ' + ', '.join('%s{%s}' % (r, ','.join(sorted(m))) for r, m in sorted(roles.items())))),
